@@ -61,6 +61,17 @@ Proof. intros H1 H2 H3 N1 N2 N3. unfold adagrid_events. rewrite !total_app, !tot
 Lemma total_flat_const (A : Type) (l : list A) (evs : list (event R)) : total (flat_map (fun _ => evs) l) = INR (length l) * total evs.
 Proof. induction l. simpl flat_map. rewrite total_nil. simpl. lra. cbn [flat_map length]. rewrite total_app, IHl, S_INR. lra. Qed.
 
+(* MWEM+PGM, Laplace mode: exactly eps under both adjacency notions *)
+Lemma ptotal_app (l1 l2 : list (pevent R)) : ptotal RNum (l1 ++ l2) = ptotal RNum l1 + ptotal RNum l2.
+Proof. unfold ptotal. induction l1 as [|e l1 IH]. simpl. lra. cbn [app fold_right]. rewrite IH. simpl. lra. Qed.
+Lemma ptotal_flat_const (A : Type) (l : list A) (evs : list (pevent R)) : ptotal RNum (flat_map (fun _ => evs) l) = INR (length l) * ptotal RNum evs.
+Proof. induction l. unfold ptotal. simpl. lra. cbn [flat_map length]. rewrite ptotal_app, IHl, S_INR. lra. Qed.
+Theorem mwem_lap_ledger eps alpha rounds bounded : 0 < eps -> 0 < alpha < 1 -> (0 < rounds)%nat ->
+  ptotal RNum (mwem_lap_events RNum eps alpha rounds bounded) = eps.
+Proof. intros He [Ha1 Ha2] HT. unfold mwem_lap_events. rewrite ptotal_flat_const, seq_length, of_nat_INR.
+  assert (K : 0 < INR rounds) by (now apply lt_0_INR).
+  unfold ptotal. cbn [fold_right pcost]. destruct bounded; simpl; field; repeat split; lra. Qed.
+
 (* MWEM+PGM, Gaussian mode: exactly rho when the selection sees the adjacency notion; (alpha + 4(1-alpha)) rho when it does not *)
 Theorem mwem_ledger rho alpha rounds bounded fwd : 0 < rho -> 0 < alpha < 1 -> (0 < rounds)%nat ->
   total (mwem_events RNum rho alpha rounds bounded fwd) = if (bounded && negb fwd)%bool then (alpha + 4 * (1 - alpha)) * rho else rho.
